@@ -23,6 +23,9 @@ TIES_S = {
     "wkbReaders_rel": "init (the dispatch table wkbReaders)", "Read_rel": "Read", "readS_rel": "Read (the recursion through the readers)",
 }
 STREAM_GEN = ["C05_stream_gen", "C05_stream_gen_model", "C05_stream_read_gen", "C05_stream_truncated_gen"]
+# phase 4: io.ReadFull over scripts is additive (FillAdd.lean); the regenerated streaming Read = the hand-written one (TieExact.lean)
+FILLADD = ["C05_readfull_additive", "C05_reader_state_unique"]
+EXACT = ["C05_stream_gen_exact", "C05_read_sequence_gen"]
 FUEL = ["C05_truncated_decode", "C05_decode_no_fuel", "C05_fuel_irrelevant"]
 # wkb.Write call by call over a model of io.Writer (lean/GeomV/C05/Sink.lean, ProofsSink.lean)
 SINK = ["C05_sink_ok", "C05_sink_prefix", "C05_sink_limit", "C05_sink_limit_fresh", "C05_sink_unsupported", "C05_sink_unsupported_any"]
@@ -34,7 +37,7 @@ BIN = ["C05_bin_uint32", "C05_bin_uint64", "C05_bin_put", "C05_bin_readU32", "C0
 STREAM = ["C05_readfull", "C05_stream_model", "C05_stream_read", "C05_read_sequence", "C05_truncated", "C05_stream_truncated"]
 CFG = {
     "id": "C05",
-    "lean_modules": ["GeomV.C05.Proofs", "GeomV.C05.ProofsStream", "GeomV.C05.ProofsCount", "GeomV.C05.ProofsBin", "GeomV.C05.ProofsFuel", "GeomV.C05.ProofsSink", "GeomV.C05.Tie", "GeomV.C05.TieStream", "GeomV.C05.TieGenS"],
+    "lean_modules": ["GeomV.C05.Proofs", "GeomV.C05.ProofsStream", "GeomV.C05.ProofsCount", "GeomV.C05.ProofsBin", "GeomV.C05.ProofsFuel", "GeomV.C05.ProofsSink", "GeomV.C05.FillAdd", "GeomV.C05.Tie", "GeomV.C05.TieStream", "GeomV.C05.TieGenS", "GeomV.C05.TieExact"],
     "exe": "geomv_c05",
     "go_cmd": "c05",
     "stages": ["go:gen", "lean:prep", "go:impl", "lean:judge"],
@@ -42,7 +45,8 @@ CFG = {
                                  "C05_type_preserved", "C05_unsupported", "C05_hex", "C05_hex_lower"]
                                 + [n for n in TIES if n != "tie_dispatch"] + SRC]
                  + [T + "Stream." + n for n in STREAM] + [T + n for n in COUNT] + [T + "BinStd." + n for n in BIN]
-                 + [T + "GenS." + n for n in TIES_S] + [T + n for n in STREAM_GEN] + [T + "Fuel." + n for n in FUEL] + [T + "Sink." + n for n in SINK],
+                 + [T + "GenS." + n for n in TIES_S] + [T + n for n in STREAM_GEN] + [T + "Fuel." + n for n in FUEL] + [T + "Sink." + n for n in SINK]
+                 + [T + "Stream." + n for n in FILLADD] + [T + n for n in EXACT],
     "trusted_base": [
         "Lean 4.33.0 kernel; axioms of every theorem printed by #print axioms must be within {propext, Classical.choice, Quot.sound}",
         "T1: harness/cmd/c05/extract.go (go/ast, ~1900 lines, statement-level, subset listed in its header) regenerates lean/GeomV/C05/Gen.lean from "
@@ -148,17 +152,17 @@ def pregen(check):
             drop("T1 tie: Go function(s) outside the translatable subset, the regenerated Gen.lean does not elaborate: "
                  + " | ".join(p.stderr.strip().splitlines())[:900])
             return
-        b = subprocess.run(["lake", "build", T + "Tie", T + "TieGenS"], cwd=vcheck.LEAN, stdout=subprocess.PIPE, stderr=subprocess.STDOUT, text=True)
+        b = subprocess.run(["lake", "build", T + "Tie", T + "TieGenS", T + "TieExact"], cwd=vcheck.LEAN, stdout=subprocess.PIPE, stderr=subprocess.STDOUT, text=True)
     if b.returncode == 0:
         return
     open(os.path.join(check.rundir, "tie.log"), "w").write(b.stdout)
-    errs = re.findall(r"error: (?:\./)?GeomV/C05/(Gen|Tie|TieGenS)\.lean:(\d+):\d+: (.*)", b.stdout)
+    errs = re.findall(r"error: (?:\./)?GeomV/C05/(Gen|TieGenS|TieExact|Tie)\.lean:(\d+):\d+: (.*)", b.stdout)
     if any(f == "Gen" for f, _, _ in errs) or not errs:
         drop("T1 tie: the regenerated Gen.lean does not elaborate: " + " | ".join(m for f, _, m in errs if f == "Gen")[:600]
              + ("" if errs else b.stdout[-600:]))
         return
     # name the tie lemma(s) whose proof failed: the last `theorem` at or before each error line
-    srcs = {f: open(os.path.join(vcheck.LEAN, "GeomV", "C05", f + ".lean")).read().split("\n") for f in ("Tie", "TieGenS")}
+    srcs = {f: open(os.path.join(vcheck.LEAN, "GeomV", "C05", f + ".lean")).read().split("\n") for f in ("Tie", "TieGenS", "TieExact")}
     bad = []
     for fl, ln, _ in errs:
         src = srcs[fl]
